@@ -53,3 +53,36 @@ def run(ctx):
                 ctx.fail("oracle", "grouping-changes-stream", {"history": H.text(), "reference": ref[1].text()},
                          "observations %s vs %s for the same pushes grouped differently" % (o, ref[0]))
     ctx.count("grouping-families", len(fams))
+    # several subscriptions in one array: per-stream observations must not depend on the packing, and a stream whose
+    # buffer overflowed must end as lagged
+    mfams = []
+    pats = [[0, 0, 1, 1], [0, 1, 0, 1], [0, 0, 0, 1, 1, 1], [1, 0, 0, 1, 2, 2, 2], [0, 1, 2], [0, 0, 1, 2, 2, 1]]
+    for pat in pats:
+        for bufcap in (1, 2, 8):
+            for idstr in (0, 1):
+                mfams.append((pat, bufcap, C.c05_multi_sub_family(ctx.rng, bufcap, idstr, pat)))
+    flat = [H for _, _, f in mfams for H in f]
+    outs = C.run_histories(ctx, flat, ["c05"], tag="multi-sub-family")
+    pos = 0
+    for pat, bufcap, f in mfams:
+        ref = None
+        for H in f:
+            evs, tables, panic = C.parse_out(outs[pos])
+            pos += 1
+            per = {}
+            for idx, (t, m) in enumerate(H.ev):
+                if m.get("kind") == "next" and idx < len(evs):
+                    per.setdefault(int(t.split()[1]), []).append(evs[idx]["N"])
+            unsubs = sum(1 for k, o in C.wire_requests(evs) if isinstance(o, dict) and str(o.get("method", "")).startswith("unsub"))
+            obs = (sorted(per.items()), unsubs)
+            for k, sh in enumerate(H.family_subs):
+                pushed = sum(1 for x in pat if x == k)
+                if pushed > bufcap and "endlag" not in per.get(sh, []):
+                    ctx.fail("oracle", "lagging-stream-not-ended-as-lagged", {"history": H.text()},
+                             "subscription %d got %d pushes with buffer %d unread, stream observations %s" % (sh, pushed, bufcap, per.get(sh)))
+            if ref is None:
+                ref = (obs, H)
+            elif obs != ref[0]:
+                ctx.fail("oracle", "grouping-changes-stream", {"history": H.text(), "reference": ref[1].text()},
+                         "per-stream observations differ between packings of the same pushes")
+    ctx.count("multi-sub-families", len(mfams))
